@@ -1182,6 +1182,8 @@ func factsC09(r *Repo) []Fact {
 	// ---------- call options: values of the per-run option map, ToolsNode fields ----------
 	out = append(out, c09ExtractOptionFact(compose))
 	out = append(out, c09ToolsNodeFact(compose, g))
+	// ---------- run errors: mutated in place, hence must be per-run objects (c09_errs.go) ----------
+	out = append(out, c09ErrFacts(compose)...)
 
 	// ---------- shared writes ----------
 	var writes []c09Write
